@@ -36,6 +36,10 @@ from pysmt.solvers.solver import IncrementalTrackingSolver
 MAX_BV_WIDTH = 4
 
 
+class BruteBudgetExceeded(Exception):
+    """More `solve` calls than `max_solves`: the routine under test does not terminate."""
+
+
 class BruteOptions(SolverOptions):
     def __call__(self, solver):
         pass
@@ -193,6 +197,8 @@ class BruteSolver(IncrementalTrackingSolver):
         self.model_row = None
         self.events = []
         self.chooser = None        # callable(list_of_row_indices) -> index; default: first
+        self.max_solves = None     # optional bound on the number of solve calls (non-termination guard)
+        self.n_solves = 0
         so = self.options.solver_options
         for s, dom in (so.get("domains") or {}).items():
             self.declare(s, dom)
@@ -291,6 +297,9 @@ class BruteSolver(IncrementalTrackingSolver):
     @clear_pending_pop
     def _solve(self, assumptions=None):
         assumptions = list(assumptions) if assumptions is not None else []
+        self.n_solves += 1
+        if self.max_solves is not None and self.n_solves > self.max_solves:
+            raise BruteBudgetExceeded("more than %d solve calls" % self.max_solves)
         stack = list(self._assertion_stack)
         rows = self.sat_rows(stack + assumptions)
         if rows:
